@@ -985,7 +985,8 @@ def broadcast_and_apply(  # noqa: C901
                         ),
                     ):
                         offsets = x.offsets
-                        lencontent = offsets[-1]
+                        # (no lists: nothing of the content is used, whatever the single offset is)
+                        lencontent = offsets[-1] if len(offsets) > 1 else 0
                         nextinputs.append(x.content[:lencontent])
 
                     elif isinstance(
